@@ -483,12 +483,13 @@ def explore_backbone(ctx: common.Ctx, kind: str, n_jobs: int, opts: dict, procs:
         for i, r in enumerate(done):
             # the classification set is cubic in the number of combinations: small cases only
             nv = len([x for x in r[op][3].split(';') if x]) if op in r else 0
-            if r['real_set'] != r['S'] and op in r and nv <= 3:
+            if r['real_set'] != r['S'] and op in r and nv <= 3 and len(lines) < 8:
                 a = list(r[op])
                 a[1] = 'cvcm'
                 lines.append('\t'.join(a + [r['deny'], r['canon']]))
                 idx.append(i)
-        outs = ctx.lean(lines) or []
+        # (classification only: at most 8 cases, 5 minutes — what stays unclassified is reported)
+        outs = ctx.lean(lines, timeout=300, soft=True) or []
         for i, o in zip(idx, outs):
             done[i]['S_mixed'] = to_set(o) | done[i]['S']
     shutil.rmtree(gen_ref.WORK, ignore_errors=True)
